@@ -1310,17 +1310,17 @@ struct const_subarray : array_types<T, D, ElementPtr, Layout> {
 	constexpr auto elements_at(size_type idx) const& -> decltype(auto) {
 		BOOST_MULTI_ASSERT(idx < this->num_elements());
 		auto const sub_num_elements = this->begin()->num_elements();
-		return operator[](idx / sub_num_elements).elements_at(idx % sub_num_elements);
+		return operator[](this->extension().first() + idx / sub_num_elements).elements_at(idx % sub_num_elements);
 	}
 	constexpr auto elements_at(size_type idx) && -> decltype(auto) {
 		BOOST_MULTI_ASSERT(idx < this->num_elements());
 		auto const sub_num_elements = this->begin()->num_elements();
-		return operator[](idx / sub_num_elements).elements_at(idx % sub_num_elements);
+		return operator[](this->extension().first() + idx / sub_num_elements).elements_at(idx % sub_num_elements);
 	}
 	constexpr auto elements_at(size_type idx) & -> decltype(auto) {
 		BOOST_MULTI_ASSERT(idx < this->num_elements());
 		auto const sub_num_elements = this->begin()->num_elements();
-		return operator[](idx / sub_num_elements).elements_at(idx % sub_num_elements);
+		return operator[](this->extension().first() + idx / sub_num_elements).elements_at(idx % sub_num_elements);
 	}
 
  private:
@@ -2904,9 +2904,9 @@ struct const_subarray<T, 1, ElementPtr, Layout>  // NOLINT(fuchsia-multiple-inhe
     #pragma warning( pop )
     #endif
 
-	BOOST_MULTI_HD constexpr auto elements_at(size_type idx) const& -> decltype(auto) { BOOST_MULTI_ASSERT(idx < this->num_elements()); return operator[](idx); }
-	BOOST_MULTI_HD constexpr auto elements_at(size_type idx)     && -> decltype(auto) { BOOST_MULTI_ASSERT(idx < this->num_elements()); return operator[](idx); }
-	BOOST_MULTI_HD constexpr auto elements_at(size_type idx)      & -> decltype(auto) { BOOST_MULTI_ASSERT(idx < this->num_elements()); return operator[](idx); }
+	BOOST_MULTI_HD constexpr auto elements_at(size_type idx) const& -> decltype(auto) { BOOST_MULTI_ASSERT(idx < this->num_elements()); return operator[](this->extension().first() + idx); }
+	BOOST_MULTI_HD constexpr auto elements_at(size_type idx)     && -> decltype(auto) { BOOST_MULTI_ASSERT(idx < this->num_elements()); return operator[](this->extension().first() + idx); }
+	BOOST_MULTI_HD constexpr auto elements_at(size_type idx)      & -> decltype(auto) { BOOST_MULTI_ASSERT(idx < this->num_elements()); return operator[](this->extension().first() + idx); }
 
 	constexpr auto reindexed(index first) && {return reindexed(first);}
 	constexpr auto reindexed(index first)  & {
